@@ -1384,9 +1384,160 @@ impl Translator {
         out
     }
 
+    /// C18: serde data-model trees and borsh bytes, from the struct declarations and their derives
+    fn render_serial(&self) -> String {
+        let mut out = String::new();
+        out.push_str("import PP.Model.Types\nimport PP.Core.Serial\n");
+        out.push_str("/-! GENERATED by /verif/rust/translator from the struct declarations of /repo/src — do not edit.\n");
+        out.push_str("`SerTree`: what the derived `Serialize`/`Deserialize` do in serde's data model; `Borsh`: the borsh bytes. -/\n\n");
+        for name in &self.struct_order {
+            let s = &self.structs[name];
+            if s.has_lifetime {
+                continue;
+            }
+            let has = |d: &str| s.derives.iter().any(|x| x == d || x.ends_with(&format!("::{d}")));
+            let serde_ok = has("Serialize") && has("Deserialize");
+            let borsh_ok = has("BorshSerialize") && has("BorshDeserialize");
+            if !s.other_attrs.is_empty() {
+                out.push_str(&format!("-- struct {name}: attributes outside the modelled subset: {:?}\n", s.other_attrs));
+                continue;
+            }
+            let cx = {
+                let mut c = TyCtx::default();
+                for p in &s.params {
+                    c.generics.insert(p.clone(), p.clone());
+                }
+                c
+            };
+            let mut ftys = vec![];
+            let mut ok = true;
+            for (f, ty) in &s.fields {
+                match ty_to_lean(ty, &cx, &self.structs) {
+                    Ok(t) => ftys.push((f.clone(), t)),
+                    Err(_) => ok = false,
+                }
+            }
+            if !ok {
+                continue;
+            }
+            let tv = if s.params.is_empty() { String::new() } else { format!("{{{} : Type}} ", s.params.join(" ")) };
+            let self_ty = |fname: &str| {
+                let mut t = name.clone();
+                if s.needs_f {
+                    t.push(' ');
+                    t.push_str(fname);
+                }
+                for p in &s.params {
+                    t.push(' ');
+                    t.push_str(p);
+                }
+                t
+            };
+            if serde_ok {
+                let mut sers = vec![];
+                let mut des = vec![];
+                let mut insts = vec![];
+                for (i, (f, t)) in ftys.iter().enumerate() {
+                    let (se, de) = if t == "F" {
+                        (format!("Tree.num self.{f}"), format!("Tree.num? t{i}"))
+                    } else if t.starts_with("(Arr") {
+                        let n = &t[4..t.len() - 3];
+                        (format!("Tree.tuple ((ArrLike.toList self.{f}).map Tree.num)"), format!("((Tree.asTuple t{i}).bind Tree.nums?).bind Arr{n}.ofList?"))
+                    } else if t.starts_with("(List ") {
+                        let inner = &t[6..t.len() - 1];
+                        insts.push(format!("[SerTree {inner} F]"));
+                        (format!("Tree.seq (self.{f}.map SerTree.ser)"), format!("(Tree.asSeq t{i}).bind deList"))
+                    } else {
+                        insts.push(format!("[SerTree {t} F]"));
+                        (format!("SerTree.ser self.{f}"), format!("SerTree.de t{i}"))
+                    };
+                    sers.push((f.clone(), se));
+                    des.push(de);
+                }
+                insts.sort();
+                insts.dedup();
+                let binds: Vec<String> = des.iter().enumerate().map(|(i, d)| format!("({d}).bind fun v{i} =>")).collect();
+                let args: Vec<String> = (0..des.len()).map(|i| format!("v{i}")).collect();
+                let pats: Vec<String> = (0..des.len()).map(|i| format!("t{i}")).collect();
+                let (ser_body, de_body) = if s.tuple && ftys.len() == 1 {
+                    (
+                        format!("Tree.newtype \"{name}\" ({})", sers[0].1),
+                        format!("(Tree.asNewtype \"{name}\" t).bind fun t0 => {} some ({name}.mk {})", binds.join(" "), args.join(" ")),
+                    )
+                } else if !s.tuple {
+                    let keys: Vec<String> = ftys.iter().map(|(f, _)| format!("\"{}\"", f.trim_matches(|c| c == '«' || c == '»'))).collect();
+                    let fields: Vec<String> = sers.iter().zip(&keys).map(|((_, se), k)| format!("({k}, {se})")).collect();
+                    (
+                        format!("Tree.struct \"{name}\" [{}]", fields.join(", ")),
+                        format!(
+                            "(Tree.asStruct \"{name}\" [{}] t).bind fun fs => match fs with\n    | [{}] => {} some ({name}.mk {})\n    | _ => none",
+                            keys.join(", "),
+                            pats.join(", "),
+                            binds.join(" "),
+                            args.join(" ")
+                        ),
+                    )
+                } else {
+                    out.push_str(&format!("-- struct {name}: tuple struct with {} fields is outside the modelled subset\n", ftys.len()));
+                    continue;
+                };
+                out.push_str(&format!(
+                    "instance inst_SerTree_{name} {{F : Type}} {tv}{} : SerTree ({}) F where\n  ser := fun self => {ser_body}\n  de := fun t => {de_body}\n\n",
+                    insts.join(" "),
+                    self_ty("F")
+                ));
+            } else {
+                out.push_str(&format!("-- struct {name}: no serde derive pair\n"));
+            }
+            if borsh_ok {
+                let mut encs = vec![];
+                let mut decs = vec![];
+                let mut insts = vec![];
+                for (f, t) in ftys.iter() {
+                    let tn = t.replace(" F)", " Nat)").replace(" F ", " Nat ");
+                    let (en, de) = if t == "F" {
+                        (format!("Borsh.encF self.{f}"), "Borsh.decF".to_string())
+                    } else if t.starts_with("(Arr") {
+                        let n = &t[4..t.len() - 3];
+                        (format!("Borsh.encFs (ArrLike.toList self.{f})"), format!("(fun bs => (Borsh.decFs {n} bs).bind fun (l, r) => (Arr{n}.ofList? l).map fun a => (a, r))"))
+                    } else if t.starts_with("(List ") {
+                        let inner = &tn[6..tn.len() - 1];
+                        insts.push(format!("[Borsh {inner}]"));
+                        (format!("Borsh.encVec self.{f}"), "Borsh.decVec".to_string())
+                    } else {
+                        insts.push(format!("[Borsh {tn}]"));
+                        (format!("Borsh.enc self.{f}"), "Borsh.dec".to_string())
+                    };
+                    encs.push(en);
+                    decs.push(de);
+                }
+                insts.sort();
+                insts.dedup();
+                let mut body = String::new();
+                for (i, d) in decs.iter().enumerate() {
+                    let src = if i == 0 { "bs".to_string() } else { format!("r{}", i - 1) };
+                    body.push_str(&format!("({d} {src}).bind fun (v{i}, r{i}) => "));
+                }
+                let args: Vec<String> = (0..decs.len()).map(|i| format!("v{i}")).collect();
+                let last = if decs.is_empty() { "bs".to_string() } else { format!("r{}", decs.len() - 1) };
+                out.push_str(&format!(
+                    "instance inst_Borsh_{name} {tv}{} : Borsh ({}) where\n  enc := fun self => {}\n  dec := fun bs => {body}some ({name}.mk {}, {last})\n\n",
+                    insts.join(" "),
+                    self_ty("Nat"),
+                    if encs.is_empty() { "[]".to_string() } else { encs.join(" ++ ") },
+                    args.join(" ")
+                ));
+            } else {
+                out.push_str(&format!("-- struct {name}: no borsh derive pair\n"));
+            }
+        }
+        out
+    }
+
     pub fn render(&self) -> BTreeMap<String, String> {
         let mut m = BTreeMap::new();
         m.insert("Types.lean".to_string(), self.render_types());
+        m.insert("Serial.lean".to_string(), self.render_serial());
         let all_files = [
             "Poly/Evaluate", "Poly/Calculus", "Poly/Ops", "Poly/Approx", "Poly/Fns", "LogPoly/Evaluate", "LogPoly/Calculus",
             "LogPoly/Ops", "LogPoly/Approx", "Piecewise/Evaluate", "Piecewise/Calculus", "Piecewise/Ops", "Piecewise/Approx",
